@@ -83,6 +83,8 @@ def rule_codes(ctx):
 
 
 def run(ctx):
+    from ..rules import arrays as _A4
+    _A4.rule_F4a(ctx, 'partitura.utils.music:note_array_from_note_list', 'fields', 'note_info', 5)
     G.rule_F8a(ctx, ENTRY, "maps")
     M.rule_F7d_measure_maps(ctx)
     M.rule_backfill_siblings(ctx)
